@@ -15,7 +15,7 @@ namespace Driver.C11
 open Elvis.Frag Elvis.Reasm
 
 /-- the behaviour of the code currently in the repository -/
-def cfg : Cfg := Cfg.orig
+def cfg : Cfg := Cfg.fixed
 
 def showId (id : BufId) : String := s!"{id.src},{id.dst},{id.proto},{id.ident}"
 
